@@ -35,6 +35,11 @@ func PathFor(in interface{}) (string, error) {
 		return "", errors.New("can not calculate path to nil")
 	}
 
+	if rv := reflect.ValueOf(in); rv.Kind() == reflect.Ptr && rv.IsNil() {
+		// also before ToPath() is tried: a value method cannot be called through a nil pointer
+		return "", fmt.Errorf("can not calculate path to nil %T", in)
+	}
+
 	switch s := in.(type) {
 	case string:
 		return join(s), nil
@@ -58,13 +63,13 @@ func PathFor(in interface{}) (string, error) {
 	k := to.Kind()
 	switch k {
 	case reflect.Struct:
-		f := rv.FieldByName("Slug")
-		if f.IsValid() {
-			return byField(ni, f)
-		}
-		f = rv.FieldByName("ID")
-		if f.IsValid() {
-			return byField(ni, f)
+		// FieldByIndexErr: a field promoted through a nil embedded pointer is absent, not a panic
+		for _, fn := range []string{"Slug", "ID"} {
+			if sf, ok := rv.Type().FieldByName(fn); ok {
+				if f, err := rv.FieldByIndexErr(sf.Index); err == nil {
+					return byField(ni, f)
+				}
+			}
 		}
 	case reflect.Slice, reflect.Array:
 		var paths []string
